@@ -4,7 +4,7 @@
    (duration + exception class or reply message); `resolve_with fuel sc c cache env` is one
    Resolver.resolve call once the candidate names c_qnames are known. *)
 From DV Require Import Base.Prelude Model.NameM Model.ResolM.
-From DV Require Import Proofs.ResolBase Proofs.ResolTerm Proofs.ResolTrace Proofs.ResolMain.
+From DV Require Import Proofs.ResolBase Proofs.ResolTerm Proofs.ResolTrace Proofs.ResolSpec Proofs.ResolCand Proofs.ResolChain Proofs.ResolMain.
 Open Scope Z_scope.
 
 (* Termination within the lifetime, for every script whose clock does not run backwards:
@@ -51,6 +51,117 @@ Theorem tc_retry_once_same_server : forall sc c,
 Proof. exact tc_retry_resolve. Qed.
 Print Assumptions tc_retry_once_same_server.
 
+(* The decision table of Resolver.resolve.  `new` = the queries of this resolution with what came
+   back; `outcome_ok` (Proofs/ResolSpec.v, printed below) says, per documented result:
+   Answer / NoAnswer: the last reply is the first acceptable NOERROR reply (every earlier reply is
+     neither acceptable nor YXDOMAIN) and the Answer is built from it, or it is an unexpired cache
+     entry for a candidate name; NoAnswer iff the RRset is absent and raise_on_no_answer;
+   NXDOMAIN: the names reported are the candidates and EVERY candidate has NXDOMAIN evidence - an
+     acceptable NXDOMAIN reply to a query for it in this resolution, or a cached NXDOMAIN;
+   YXDOMAIN: the last reply has rcode YXDOMAIN;  NoNameservers: every configured server was taken
+     out of the mix by one of the queries;  LifetimeTimeout: the lifetime has elapsed (or the clock
+     went back by more than a second);  nothing else can come out.
+   The cache afterwards is exactly `cache_after`: every acceptable reply stored under
+   (question name, rdtype, rdclass) resp. (question name, ANY, rdclass) for NXDOMAIN. *)
+Theorem outcome_spec : forall sc c ch fuel e f s' e',
+  resolve_with fuel sc c ch e = (f, s', e') -> f <> FFuel ->
+  exists new, e_trace e' = e_trace e ++ new /\
+    match f with
+    | FInternal _ => True      (* impossible for distinct servers: broken_never_reasked *)
+    | _ => outcome_ok c (e_clock e) ch new f (e_clock e') /\ s_cache s' = cache_after c ch new
+    end.
+Proof. exact outcome_spec_resolve. Qed.
+Print Assumptions outcome_spec.
+Print outcome_ok.
+Print from_network.
+Print from_cache.
+Print nx_prov.
+Print cache_step.
+
+(* Candidate names: the search-list / ndots rule of _get_qnames_to_try ... *)
+Theorem qnames_rule : forall r qname search l,
+  qnames_to_try r qname search = Ok l ->
+  let srch := match search with None => r_use_search_by_default r | Some b => b end in
+  let nd := match r_ndots r with None => 1 | Some n => n end in
+  (is_absolute qname = true -> l = [qname]) /\
+  (is_absolute qname = false ->
+     exists absq, concatenate qname root = Ok absq /\
+       (srch = false -> l = [absq]) /\
+       (srch = true ->
+          exists sl cands,
+            ((r_search r <> [] -> sl = r_search r) /\
+             (r_search r = [] -> name_eqb (r_domain r) root = false -> sl = [r_domain r]) /\
+             (r_search r = [] -> name_eqb (r_domain r) root = true -> sl = [])) /\
+            Forall2 (fun s x => concatenate qname s = Ok x) sl cands /\
+            (zlen qname - 1 >= nd -> l = absq :: cands) /\
+            (zlen qname - 1 < nd -> l = cands ++ [absq]))).
+Proof. exact qnames_rule_lemma. Qed.
+Print Assumptions qnames_rule.
+
+(* ... and the resolution asks them in that order: every query is for the candidate at position
+   |candidates| - 1 - ev_left, positions never go back, and the resolution moves to a later
+   candidate only right after an acceptable NXDOMAIN reply. *)
+Theorem candidates_in_order : forall sc c ch fuel e f s' e',
+  resolve_with fuel sc c ch e = (f, s', e') -> f <> FFuel ->
+  exists new, e_trace e' = e_trace e ++ new /\
+    Forall (fun ev => exists done rest, c_qnames c = done ++ ev_qname ev :: rest /\ length rest = ev_left ev) new /\
+    adjacent (fun a b => (ev_left b <= ev_left a)%nat /\
+                         ((ev_left b < ev_left a)%nat -> nx_accepts (ev_obs a) <> None)) new.
+Proof. exact candidates_in_order_resolve. Qed.
+Print Assumptions candidates_in_order.
+
+(* The answer follows the CNAME chain: the CNAME RRsets followed form a path in the answer section
+   from the question name to the canonical name, fewer than MAX_CHAIN = 16 of them (whatever loops
+   the section contains); the walk stops at the wanted RRset or where no CNAME continues; the
+   minimum TTL is the minimum over the chain and the answer, or - for a negative reply - also the
+   TTL and MINIMUM of the closest enclosing SOA in the authority section. *)
+Theorem chain_spec : forall m ch,
+  resolve_chaining m = Ok ch ->
+  exists q, m_question m = [q] /\ m_qr m = true /\
+    chain_path (m_answer m) (q_class q) (q_type q) (q_name q) (ch_cnames ch) (ch_canonical ch) /\
+    (length (ch_cnames ch) < MAX_CHAIN)%nat /\
+    stops_at (m_answer m) (q_class q) (q_type q) (ch_canonical ch) (ch_answer ch) /\
+    match ch_answer ch with
+    | Some a => m_rcode m <> rcNXDOMAIN /\ ch_min_ttl ch = Z.min (min_over MAX_TTL (ch_cnames ch)) (rs_ttl a)
+    | None =>
+        exists r, soa_at (m_authority m) (q_class q) (ch_canonical ch) r /\
+          ch_min_ttl ch = match r with
+                          | Some s => Z.min (Z.min (min_over MAX_TTL (ch_cnames ch)) (rs_ttl s)) (soa_minimum s)
+                          | None => min_over MAX_TTL (ch_cnames ch)
+                          end
+    end.
+Proof. exact chain_spec_lemma. Qed.
+Print Assumptions chain_spec.
+
+Theorem chain_too_long_only_if : forall m,
+  resolve_chaining m = Lib eChainTooLong ->
+  exists q p n, m_question m = [q] /\
+    chain_path (m_answer m) (q_class q) (q_type q) (q_name q) p n /\ length p = MAX_CHAIN.
+Proof. exact chain_too_long_lemma. Qed.
+Print Assumptions chain_too_long_only_if.
+
+(* Results are cached under the queried name, type and class: an answer accepted from the network is
+   found under (its question name - a candidate -, rdtype, rdclass) until it expires ... *)
+Theorem cache_key_spec : forall sc c ch fuel e f s' e' a,
+  resolve_with fuel sc c ch e = (f, s', e') -> f <> FFuel -> c_cache c = true ->
+  f = FAnswer a \/ f = FNoAnswer a ->
+  forall new, e_trace e' = e_trace e ++ new -> from_network c new a ->
+  In (a_qname a) (c_qnames c) /\
+  forall now, now < a_expiration a ->
+    cache_get (s_cache s') {| k_name := a_qname a; k_type := c_rdtype c; k_class := c_rdclass c |} now = Some a.
+Proof. exact cache_put_spec_resolve. Qed.
+Print Assumptions cache_key_spec.
+
+(* ... and a later resolution whose first candidate has such an entry returns it without a query. *)
+Theorem cache_hit_spec : forall sc c ch fuel e q rest a,
+  c_qnames c = q :: rest -> c_cache c = true ->
+  cache_get ch {| k_name := q; k_type := c_rdtype c; k_class := c_rdclass c |} (e_clock e) = Some a ->
+  exists s', resolve_with fuel sc c ch e =
+    ((if (match a_rrset a with None => true | Some _ => false end) && c_raise c then FNoAnswer a else FAnswer a), s', e)
+    /\ s_cache s' = ch.
+Proof. exact cache_hit_spec_resolve. Qed.
+Print Assumptions cache_hit_spec.
+
 (* ---------- non-vacuity: a concrete run satisfying all hypotheses ---------- *)
 Definition ex_n1 : name := [[104]; [97]; []].
 Definition ex_n2 : name := [[104]; []].
@@ -86,4 +197,41 @@ Example ex_run :
   /\ map ev_trunc_udp (e_trace e') = [false; false; true; false]
   /\ (match f with FAnswer a => a_src a | _ => -1 end) = 3
   /\ e_clock e' = 40.
+Proof. vm_compute. repeat split. Qed.
+
+(* chain_spec: a reply with a two-link CNAME chain *)
+Definition ex_t1 : name := [[116]; []].
+Definition ex_t2 : name := [[117]; []].
+Definition ex_chain_msg : msg :=
+  inst_msg {| q_name := ex_n2; q_class := 1; q_type := 1 |}
+    {| pm_qr := true; pm_rcode := 0; pm_nq := 1%nat;
+       pm_answer := [ {| p_owner := None; p_class := 1; p_type := 5; p_ttl := 300; p_data := Some ex_t1; p_num := 0 |};
+                      {| p_owner := Some ex_t1; p_class := 1; p_type := 5; p_ttl := 60; p_data := Some ex_t2; p_num := 0 |};
+                      {| p_owner := Some ex_t2; p_class := 1; p_type := 1; p_ttl := 200; p_data := None; p_num := 9 |} ];
+       pm_authority := [] |}.
+Example ex_chain :
+  match resolve_chaining ex_chain_msg with
+  | Ok ch => ch_canonical ch = ex_t2 /\ ch_min_ttl ch = 60 /\ length (ch_cnames ch) = 2%nat /\ ch_answer ch <> None
+  | _ => False
+  end.
+Proof. vm_compute. repeat split. discriminate. Qed.
+Example ex_qnames :
+  qnames_to_try {| r_servers := []; r_timeout := 2000; r_lifetime := 5000; r_retry_servfail := false;
+                   r_cache := false; r_use_search_by_default := false; r_search := [[[97]; []]];
+                   r_domain := root; r_ndots := None |} [[104]] (Some true)
+  = Ok [[[104]; [97]; []]; [[104]; []]].
+Proof. vm_compute. reflexivity. Qed.
+
+(* cache_key_spec / cache_hit_spec: with the cache on, the answer of ex_run is stored and then hit without a query *)
+Definition ex_cfg_cache : cfg :=
+  {| c_servers := c_servers ex_cfg; c_tcp := false; c_retry_servfail := false; c_raise := true; c_cache := true;
+     c_lifetime := 5000; c_timeout := 2000; c_rdtype := 1; c_rdclass := 1; c_qnames := [ex_n1; ex_n2] |}.
+Example ex_cache :
+  let '(f, s', e') := resolve_with (fuel_bound ex_cfg_cache) ex_sc ex_cfg_cache [] ex_env in
+  (match f with
+   | FAnswer a => a_src a = 3 /\ a_qname a = ex_n2 /\
+                  cache_get (s_cache s') {| k_name := ex_n2; k_type := 1; k_class := 1 |} 1000 = Some a
+   | _ => False end) /\
+  let '(f2, _, e2) := resolve_with (fuel_bound ex_cfg_cache) ex_sc ex_cfg_cache (s_cache s') e' in
+  (match f2 with FAnswer a2 => a_src a2 = 3 | _ => False end) /\ e_pos e2 = e_pos e' /\ length (e_trace e2) = 4%nat.
 Proof. vm_compute. repeat split. Qed.
